@@ -124,16 +124,22 @@ def run_job(job, tier, seed):
                         res.violate('MVArray.save then load_ga_file does not return equal multivectors attached to the loading layout', site,
                                     None, None, dict(site, op='save-load'))
                     # a layout of different signature must refuse
-                    other_sig = [(-s if s != 0 else 1) for s in sig]
-                    other = real.make_layout(other_sig)
-                    res.case(('load-mismatch', tuple(sig), tuple(other_sig), comp, tr, shp))
-                    ob.raw(f"LOADCHECK {core.ints(sig)} {core.ints(other_sig)}", 'err ValueError', 'model accepts a mismatching signature', site=dict(site, op='loadcheck'))
-                    try:
-                        other.load_ga_file(fn)
-                        res.violate('loading into a layout of different signature does not raise ValueError', dict(site, other=other_sig), 'loaded', 'ValueError',
-                                    dict(site, op='load-mismatch'))
-                    except ValueError:
-                        pass
+                    others = [[(-s if s != 0 else 1) for s in sig]]
+                    # same numbers of +, -, 0 in a different order is a different signature too
+                    for cand in (list(reversed(sig)), sig[1:] + sig[:1]):
+                        if cand != sig:
+                            others.append(cand)
+                            break
+                    for other_sig in others:
+                        other = real.make_layout(other_sig)
+                        res.case(('load-mismatch', tuple(sig), tuple(other_sig), comp, tr, shp))
+                        ob.raw(f"LOADCHECK {core.ints(sig)} {core.ints(other_sig)}", 'err ValueError', 'model accepts a mismatching signature', site=dict(site, op='loadcheck'))
+                        try:
+                            other.load_ga_file(fn)
+                            res.violate('loading into a layout of different signature does not raise ValueError', dict(site, other=other_sig), 'loaded', 'ValueError',
+                                        dict(site, op='load-mismatch'))
+                        except ValueError:
+                            pass
                     os.unlink(fn)
         ob.run(res, 'io')
     finally:
